@@ -265,12 +265,14 @@ struct PGMIndex<K, Epsilon, EpsilonRecursive, Floating>::Segment {
      * @return the approximate position of the specified key
      */
     inline size_t operator()(const K &k) const {
-        size_t pos;
+        double pos;
         if constexpr (std::is_same_v<K, int64_t> || std::is_same_v<K, int32_t>)
-            pos = size_t(slope * double(std::make_unsigned_t<K>(k) - key));
+            pos = slope * double(std::make_unsigned_t<K>(k) - key);
         else
-            pos = size_t(slope * double(k - key));
-        return pos + intercept;
+            pos = slope * double(k - key);
+        // Saturate to the range of intercept: converting an out-of-range floating-point value to size_t is undefined
+        constexpr double max_pos = std::numeric_limits<decltype(intercept)>::max();
+        return (pos < max_pos ? size_t(pos) : size_t(max_pos)) + intercept;
     }
 };
 
